@@ -8,12 +8,14 @@
 (* layer (harness/c16.py compares with Caps only); its purpose is to let   *)
 (* TLC itself show which design decisions break the property:              *)
 (*   FirstMatch = TRUE    the pinned tree's resolve_cap loop  -> AlgoResolves violated *)
-(*   SwappedIndex = TRUE  the pinned tree's register_proxy_cap -> AlgoByName violated  *)
+(*   SwappedIndex = TRUE  the pinned tree's register_proxy_cap -> AlgoProxyStable violated *)
+(*   DedupeAdd = TRUE     update_caps skipping a (type, url) pair the name already has     *)
+(*                        -> AlgoByName violated by the grant history a, c, a              *)
 (* and that the candidate repairs (both FALSE) refine the property.        *)
 (***************************************************************************)
 EXTENDS Caps
 
-CONSTANTS FirstMatch, SwappedIndex, Depth
+CONSTANTS FirstMatch, SwappedIndex, DedupeAdd, Depth
 VARIABLE md          \* md[r]: the CapsMultiDict of region r as its item sequence <<name, type, url>>
 avars == <<vars, md>>
 Bound == TLCGet("level") <= Depth
@@ -25,6 +27,11 @@ Drop(s, n) == SelectSeq(s, LAMBDA it : it.n # n)
 MdAdd(s, it) == Drop(s, it.n) \o <<it>> \o Keep(s, it.n)
 RECURSIVE MdAddAll(_, _)
 MdAddAll(s, its) == IF its = <<>> THEN s ELSE MdAddAll(MdAdd(s, Head(its)), Tail(its))
+(* update_caps: add every granted pair (optionally skipping pairs the name already has) *)
+RECURSIVE MdUpdate(_, _)
+MdUpdate(s, its) == IF its = <<>> THEN s
+                    ELSE IF DedupeAdd /\ \E i \in DOMAIN s : s[i] = Head(its) THEN MdUpdate(s, Tail(its))
+                    ELSE MdUpdate(MdAdd(s, Head(its)), Tail(its))
 (* caps[name]: the first item with that key *)
 MdGet(s, n) == IF Keep(s, n) = <<>> THEN NoUrl ELSE Head(Keep(s, n)).u
 (* _recalc_caps: dict url -> (type, name); key order = first occurrence, value = last occurrence *)
@@ -61,7 +68,7 @@ ASeedResp(r, i) ==
            grants == [k \in DOMAIN granted |-> Item(granted[k], "N", g[granted[k]])]
            wrapped == SelectSeq(granted, LAMBDA n : n \in Asset)
            wraps == [k \in DOMAIN wrapped |-> Item(WName(wrapped[k]), "W", Viewer(r, g)[wrapped[k]])]
-       IN md' = [md EXCEPT ![r] = MdAddAll(@, grants \o wraps)]
+       IN md' = [md EXCEPT ![r] = MdAddAll(MdUpdate(@, grants), wraps)]
 ARegisterTemp(r, u) == RegisterTemp(r, u) /\ md' = [md EXCEPT ![r] = MdAdd(@, Item("UpTemp", "T", u))]
 (* register_proxy_cap: `if name in self.caps: cap_data = self.caps[name]; if <is proxy-only>: return url` *)
 AlgoProxyUrl(r) == IF Keep(md[r], "ProxyP") = <<>> THEN ProxyUrl(r)
